@@ -108,7 +108,7 @@ func Run(tier string) {
 // writerPlans: every (write sequence, failing flush) plan of the model, replayed on the real writer.
 func writerPlans(run *vk.Run, seed int64) {
 	C := 3
-	cfg := mcCfg("writer", C, 2, 0, "{}", "{0, 1, 3, 4, 7}", run.Pick(3, 4), true, "HoldbackW FrameShapeW SuccessMeansCompleteW FailureSurfacesW EmitWriter", "", false)
+	cfg := mcCfg("writer-postclose", C, 2, 0, "{}", "{0, 1, 3, 4, 7}", run.Pick(3, 4), true, "HoldbackW FrameShapeW SuccessMeansCompleteW FailureSurfacesW EmitWriter", "", false)
 	res := run.TLC("writer-fault-plans", vk.TLCOpts{Module: "StreamMC", Config: cfg, Workers: 16})
 	if res.Violated != "" || !res.OK {
 		vk.Infra("StreamMC writer fault generation failed: %s\n%s", res.Violated, res.Output)
